@@ -90,6 +90,12 @@ def families(ch):
         "UAB_2": {"type": "record", "name": "Top", "fields": [{"name": "u", "type": [
             {"type": "record", "name": "A", "fields": [{"name": "y", "type": ["null", "int"], "default": None}]},
             {"type": "record", "name": "B", "fields": [{"name": "x", "type": ["null", "int"], "default": None}]}]}]},
+        "R_nested": {"type": "record", "name": "R", "fields": [
+            {"name": "grid", "type": {"type": "array", "items": {"type": "array", "items": "int"}}, "default": [[1], [2, 3]]},
+            {"name": "index", "type": {"type": "map", "values": {"type": "array", "items": "int"}}, "default": {"a": [1]}},
+            {"name": "inner", "type": {"type": "record", "name": "Inner", "fields": [{"name": "xs", "type": {"type": "array", "items": "int"}}]},
+             "default": {"xs": [1, 2]}},
+            {"name": "u", "type": [{"type": "array", "items": "string"}, "null"], "default": ["d"]}]},
         "Prim": "long",
         "Union": ["null", "string", {"type": "record", "name": "R", "fields": [{"name": "u", "type": "boolean"}]}],
     }
@@ -112,6 +118,7 @@ DATA = {
     "Rec_dec": [{"d": decimal.Decimal("12345"), "t": datetime.datetime(2020, 1, 2, 3, 4, 5, 6, tzinfo=datetime.timezone.utc)}],
     "UAB_1": [{"u": {"y": 7}}, {"u": {"x": 1}}, {"u": {}}],
     "UAB_2": [{"u": {"y": 7}}, {"u": {"x": 1}}, {"u": {}}],
+    "R_nested": [{}, {"grid": [[9]], "u": None}],
     "Prim": [5, -1],
     "Union": [None, "s", {"u": True}],
     # reference-only schemas: data for the contexts in which they can be parsed
@@ -177,7 +184,7 @@ class History:
             self.gen_data[key] = len(DATA_local)
         self.E = copy.deepcopy(self.base)
         # swarm: each history concentrates on one group of schemas that clash on a type name
-        groups = [["R_a", "R_b", "R_enum", "R_ns", "Outer_R", "Uses_R", "Arr_R", "Rec_dec", "Union"],
+        groups = [["R_a", "R_b", "R_enum", "R_ns", "Outer_R", "Uses_R", "Arr_R", "Rec_dec", "Union", "R_nested"],
                   ["E_1", "E_2", "Outer_E", "Uses_E", "Bad_sym"], ["F_4", "F_2", "Outer_E", "Bad_dup"],
                   ["UAB_1", "UAB_2"], ["Dec_30", "Dec_3", "Rec_dec"], list(self.keys)]
         self.focus = ch.pick(groups)
@@ -319,8 +326,8 @@ class History:
         if k == 9 and ch.chance(35):
             # hand-written JSON with fields absent: the reader must fill schema defaults
             self.ctx.probe("json_call")
-            key2 = ch.pick(["R_b", "R_ns", "Outer_R"])
-            texts = {"R_b": ['{"b": "x"}', '{"b": "y", "l": [7]}'], "R_ns": ['{"a": 1}', '{"a": 2, "m": {"q": 3}}'],
+            key2 = ch.pick(["R_b", "R_ns", "Outer_R", "R_nested"])
+            texts = {"R_nested": ['{}', '{"grid": [[5]]}', '{"u": null}'], "R_b": ['{"b": "x"}', '{"b": "y", "l": [7]}'], "R_ns": ['{"a": 1}', '{"a": 2, "m": {"q": 3}}'],
                      "Outer_R": ['{"r": {"z": 1.0}}', '{"r": {"z": 1.0}, "again": null}']}
             tname = self.new("JT")
             self.base[tname] = "\n".join(ch.pick(texts[key2]) for _ in range(1 + ch.draw(3)))
